@@ -813,7 +813,6 @@ func reachesAvoidingSet(from, to ssa.Instruction, avoid map[ssa.Instruction]bool
 // output (up to 4095 bytes) is lost without an error.
 func (c *Ctx) RuleBufwFlush() *Result {
 	res := &Result{Rule: "BUFW-FLUSH", MinInst: 100}
-	lm := c.Loud()
 	total := 0
 	defer func() {
 		if total == 0 {
@@ -897,20 +896,16 @@ func (c *Ctx) RuleBufwFlush() *Result {
 			}
 			var problems []string
 			// (1) every successful return after the creation has passed a Flush
-			allInstrs(fn, func(in2 ssa.Instruction) {
-				r, ok := in2.(*ssa.Return)
-				if !ok || !reachesAvoidingSet(mk, r, flushes) {
-					return
-				}
-				if e := retErrOperand(r); e != nil {
-					if errOperandAlwaysNonNil(e) || domFacts(r.Block())[e] == nonNil {
-						return // a failing return: the output is discarded
+			c.explore(mk.Block(), instrIndex(mk)+1, newEnvAt(mk.Block()), exploreCB{
+				instr: func(in2 ssa.Instruction, e *pathEnv) bool { return flushes[in2] },
+				ret: func(r *ssa.Return, e *pathEnv) {
+					if op := retErrOperand(r); op != nil {
+						if errOperandAlwaysNonNil(op) || e.nilnessOf(op) == nonNil || domFacts(r.Block())[op] == nonNil {
+							return // a failing return: the output is discarded
+						}
 					}
-				}
-				if lm.BlockDies(r.Block()) {
-					return
-				}
-				problems = append(problems, "the function can return successfully at "+c.P.InstrPos(r)+" without having flushed the writer")
+					problems = append(problems, "the function can return successfully at "+c.P.InstrPos(r)+" without having flushed the writer")
+				},
 			})
 			// (2) the sink is not read or closed before the flush
 			sink := mk.Call.Args[0]
@@ -2519,8 +2514,9 @@ func (c *Ctx) globalMapKeys(v ssa.Value) ([]string, bool) {
 
 // RuleReadEOF (C17): bufio.Reader.ReadString / ReadBytes return the text read
 // so far *together with* io.EOF when the input does not end in the delimiter.
-// A loop that leaves on the error without looking at that text drops the last
-// line of every file that has no final newline.
+// No path from the call to a successful return of the function may skip every
+// use of that text (a loop that leaves on the error and carries on drops the
+// last line of every file that has no final newline).
 func (c *Ctx) RuleReadEOF() *Result {
 	res := &Result{Rule: "READ-EOF", MinInst: 100}
 	lm := c.Loud()
@@ -2531,7 +2527,6 @@ func (c *Ctx) RuleReadEOF() *Result {
 		}
 		res.Instances++
 		k := 0
-		loops := naturalLoops(fn)
 		allInstrs(fn, func(in ssa.Instruction) {
 			call, ok := in.(*ssa.Call)
 			if !ok {
@@ -2555,12 +2550,6 @@ func (c *Ctx) RuleReadEOF() *Result {
 				uses[u] = true
 			}
 			// the smallest loop around the call
-			var loop *natLoop
-			for _, l := range loops {
-				if l.body[call.Block()] && (loop == nil || len(l.body) < len(loop.body)) {
-					loop = l
-				}
-			}
 			bad := ""
 			type pos struct {
 				b *ssa.BasicBlock
@@ -2571,13 +2560,6 @@ func (c *Ctx) RuleReadEOF() *Result {
 			for len(stack) > 0 && bad == "" {
 				p := stack[len(stack)-1]
 				stack = stack[:len(stack)-1]
-				if loop != nil && !loop.body[p.b] {
-					// left the read loop without having looked at the text
-					if !lm.BlockDies(p.b) {
-						bad = "the read loop is left at " + c.P.InstrPos(p.b.Instrs[0])
-					}
-					continue
-				}
 				stopped := false
 				for i := p.i; i < len(p.b.Instrs); i++ {
 					x := p.b.Instrs[i]
@@ -2590,7 +2572,7 @@ func (c *Ctx) RuleReadEOF() *Result {
 						if e := retErrOperand(r); e != nil && (errOperandAlwaysNonNil(e) || domFacts(r.Block())[e] == nonNil) {
 							break
 						}
-						bad = "the function returns at " + c.P.InstrPos(r)
+						bad = "the function returns successfully at " + c.P.InstrPos(r)
 						break
 					}
 					if x == ssa.Instruction(call) {
@@ -2619,4 +2601,156 @@ func (c *Ctx) RuleReadEOF() *Result {
 		res.ok("repository:no ReadString / ReadBytes", "-", fmt.Sprintf("%d functions scanned", res.Instances))
 	}
 	return res
+}
+
+// globalMapEntries: the constant key/value pairs of a package-level map that is
+// only filled by its initialiser (a map literal).
+func (c *Ctx) globalMapEntries(v ssa.Value) (entries [][2]ssa.Value, ok bool) {
+	ld, isLd := v.(*ssa.UnOp)
+	if !isLd || ld.Op != token.MUL {
+		return nil, false
+	}
+	gl, isG := ld.X.(*ssa.Global)
+	if !isG {
+		return nil, false
+	}
+	okAll := true
+	stores := 0
+	for _, fn := range c.P.RepoFns {
+		allInstrs(fn, func(in ssa.Instruction) {
+			switch x := in.(type) {
+			case *ssa.Store:
+				if x.Addr != ssa.Value(gl) {
+					return
+				}
+				stores++
+				mk, isMk := x.Val.(*ssa.MakeMap)
+				if fn.Name() != "init" || !isMk {
+					okAll = false
+					return
+				}
+				for _, r := range referrers(mk) {
+					if mu, isMu := r.(*ssa.MapUpdate); isMu {
+						k, v2 := stripConv(mu.Key), stripConv(mu.Value)
+						if _, kc := k.(*ssa.Const); !kc {
+							okAll = false
+						}
+						if _, vc := v2.(*ssa.Const); !vc {
+							okAll = false
+						}
+						entries = append(entries, [2]ssa.Value{k, v2})
+					}
+				}
+			case *ssa.MapUpdate:
+				if l2, isL := x.Map.(*ssa.UnOp); isL && l2.X == ssa.Value(gl) {
+					okAll = false
+				}
+			}
+		})
+	}
+	return entries, okAll && stores == 1
+}
+
+// ---------- CTOR-DEFAULTS ----------
+
+// RuleCtorDefaults (C06, C09, C15, C16): a constructor that can return more
+// than one freshly made value of its result type (the configuration loader
+// returns an empty Configuration when the file is missing or does not parse)
+// gives all of them the same defaults. A default that is written into only one
+// of the composite literals leaves the others with the zero value, and the
+// zero value of a setting is rarely a no-op (an indentation width of 0, an
+// empty directory name that makes the root the target, an empty marker).
+func (c *Ctx) RuleCtorDefaults() *Result {
+	res := &Result{Rule: "CTOR-DEFAULTS", MinInst: 1}
+	res.Instances++
+	res.ok("repository:constructors with several returned literals", "-", "scanned")
+	for _, fn := range c.P.RepoFns {
+		if len(fn.Blocks) == 0 || fn.Signature.Recv() != nil || fn.Signature.Results().Len() == 0 {
+			continue
+		}
+		pt, ok := fn.Signature.Results().At(0).Type().Underlying().(*types.Pointer)
+		if !ok {
+			continue
+		}
+		if _, isStruct := pt.Elem().Underlying().(*types.Struct); !isStruct {
+			continue
+		}
+		if pkg, _ := namedOf(pt.Elem()); !load.InModule(pkg) {
+			continue
+		}
+		// composite literals of the result type that can be returned
+		var lits []*ssa.Alloc
+		allInstrs(fn, func(in ssa.Instruction) {
+			al, ok := in.(*ssa.Alloc)
+			if !ok || !types.Identical(al.Type(), fn.Signature.Results().At(0).Type()) {
+				return
+			}
+			if flowsToReturn(al, 0) {
+				lits = append(lits, al)
+			}
+		})
+		if len(lits) < 2 {
+			continue
+		}
+		res.Instances++
+		key := load.FnName(fn) + ":every returned value starts from the same defaults"
+		defaults := func(al *ssa.Alloc) map[string]string {
+			out := map[string]string{}
+			var walk func(addr ssa.Value, path string, d int)
+			walk = func(addr ssa.Value, path string, d int) {
+				if d > 5 {
+					return
+				}
+				for _, r := range referrers(addr) {
+					switch x := r.(type) {
+					case *ssa.FieldAddr:
+						if x.X != addr || x.Block() != al.Block() {
+							continue
+						}
+						st := derefType(x.X.Type()).Underlying().(*types.Struct)
+						walk(x, path+"."+st.Field(x.Field).Name(), d+1)
+					case *ssa.Store:
+						if x.Addr == addr && x.Block() == al.Block() && path != "" {
+							if cst, ok := stripConv(x.Val).(*ssa.Const); ok {
+								out[path[1:]] = cst.String()
+							} else {
+								out[path[1:]] = "<computed>"
+							}
+						}
+					}
+				}
+			}
+			walk(al, "", 0)
+			return out
+		}
+		ref := defaults(lits[0])
+		var diffs []string
+		for _, al := range lits[1:] {
+			got := defaults(al)
+			for k, v := range ref {
+				if got[k] != v {
+					diffs = append(diffs, fmt.Sprintf("%s is %s in the value made at %s and %s in the one made at %s", k, v, c.P.InstrPos(lits[0]), orZero(got[k]), c.P.InstrPos(al)))
+				}
+			}
+			for k, v := range got {
+				if _, ok := ref[k]; !ok {
+					diffs = append(diffs, fmt.Sprintf("%s is %s in the value made at %s and the zero value in the one made at %s", k, v, c.P.InstrPos(al), c.P.InstrPos(lits[0])))
+				}
+			}
+		}
+		if len(diffs) > 0 {
+			sort.Strings(diffs)
+			res.bad(key, c.P.FnPos(fn), load.FnName(fn)+" can return several freshly made values and they do not start from the same defaults: "+strings.Join(uniq(diffs), "; ")+". The value returned on the error path (a configuration file that exists but does not decode) silently lacks the default")
+		} else {
+			res.ok(key, c.P.FnPos(fn), fmt.Sprintf("%d composite literals can be returned; they initialise the same fields with the same constants (%d)", len(lits), len(ref)))
+		}
+	}
+	return res
+}
+
+func orZero(s string) string {
+	if s == "" {
+		return "the zero value"
+	}
+	return s
 }
